@@ -40,6 +40,9 @@ def run(report, db, tier):
     S = shared.summariser(db, cg)
     disp = dispatch_lists(report, db, S, M)
     registration(report, db, cg, S, M, disp)
+    # "for every incoming packet": what was read reaches the dispatch
+    from .c11 import no_drop
+    no_drop(report, db, S, M, rule_id='R13.5')
     call_packet(report, db, S)
 
 
